@@ -2,6 +2,8 @@
 //! real code of nerdsane/redis-rust (path dependency on /repo, feature `verif-hooks`).
 mod crdt;
 mod util;
+mod wal;
+mod walfmt;
 
 fn main() {
     let args: Vec<String> = std::env::args().collect();
@@ -16,6 +18,7 @@ fn main() {
             0
         }
         "crdt" => crdt::main(rest),
+        "wal" => wal::main(rest),
         m => {
             eprintln!("unknown module {m}");
             2
